@@ -189,6 +189,15 @@ def run_case(ctx, case):
         g = ux.grid_from_mesh(m, extra=extra, layout=case.get("layout", "C"))
         sig = {"supplied": bool(extra), "isolated": ft["isolated"], "layout": case.get("layout", "C")}
     check_grid(ctx, g, m.faces, m.n_node, case["order"], sig)
+    if source == "mpas" and ref.is_manifold(m.faces):
+        # the same in-memory dataset opened a second time (a script that opens the primal and later the same mesh again):
+        # the incidence tables of the second grid are judged exactly like the first
+        try:
+            g_again = U.open_grid(ds)
+            check_grid(ctx, g_again, m.faces, m.n_node, (case["order"] + 1) % len(ORDERS), dict(sig, opened="second_time_from_same_dataset"))
+            ctx.observe("mpas_sources_opened_twice")
+        except Exception as e:
+            ctx.check("no_exception", False, {"stage": "open_mpas_again", "exc": core.exc_sig(e)}, {"exc": repr(e), "mesh": case["mesh"]})
     if ft["boundary"] or ft["isolated"] or ft["valence5"] or extra:
         ctx.mark_nontrivial()
     for k, v in ft.items():
